@@ -53,6 +53,9 @@ func (s *vfC07Sys) drawReads(t *rapid.T, filters, sizes int) {
 			s.pageByOffset(vfC07Filter{}, size, full)
 		}
 	}
+	if n == 0 {
+		filters = min(filters, 1)
+	}
 	for k := 0; k < filters; k++ {
 		f := vfC07DrawTerm(t, "term", s.all(), s.clients)
 		sel := s.readAll(f, rapid.Bool().Draw(t, "with_limit"))
